@@ -1,14 +1,15 @@
 #!/bin/bash
-# usage: run_seeded.sh <seeded name> <property ids...> : apply the seeded change to /repo, run the checks, undo it
+# usage: run_seeded.sh <seeded name> <property ids...>
+# applies the seeded change to a scratch copy of /repo's working tree (outside /repo and /verif), runs the checks against it
+# (NMFU_REPO selects the tree the checks read), removes the copy.  Equivalent to `git -C /repo apply` + run + `git checkout -- .`.
 N=$1; shift
-cd /repo || exit 9
-if [ -n "$(git status --porcelain --untracked-files=no)" ]; then echo "repo dirty"; exit 9; fi
-git apply /verif/seeded/$N/patch.diff || git apply -3 /verif/seeded/$N/patch.diff || { echo "patch failed"; git checkout -- .; exit 9; }
+S=$(mktemp -d /tmp/seedrun.XXXXXX)
+cp -r /repo/nmfu.py /repo/example /repo/tests $S/ 2>/dev/null
+( cd $S && git init -q . && git add -A >/dev/null && git -c user.email=x -c user.name=x commit -qm base && (git apply /verif/seeded/$N/patch.diff || git apply -3 /verif/seeded/$N/patch.diff) ) || { echo "$N patch failed"; rm -rf $S; exit 9; }
 cd /verif
 for p in "$@"; do
-  out=$(./check $p 2>&1); rc=$?
+  out=$(NMFU_REPO=$S VERIF_EVIDENCE_DIR=$S/evidence ./check $p 2>&1); rc=$?
   echo "$N $p rc=$rc $(echo "$out" | grep -c '^VIOLATION') violation lines; $(echo "$out" | tail -1)"
   echo "$out" | grep -A1 '^VIOLATION' | head -4
 done
-git -C /repo checkout -- .
-git -C /repo status --porcelain --untracked-files=no
+rm -rf $S
